@@ -25,6 +25,7 @@
 import DfolsVerif.Properties.C01
 import DfolsVerif.Proofs.HCalls
 import DfolsVerif.Proofs.Sfista
+import DfolsVerif.Proofs.SolveMainCalls
 
 namespace Dfols
 namespace C06
@@ -106,6 +107,18 @@ theorem C06_sfista_returns_bound_names :
     (∀ r ∈ Gen.sfistaReturn, r.boundBeforeLoop = true ∨ r.boundInLoopBody = true) ∧
     Gen.sfistaLoopHeader = "for k in range(MAX_LOOP_ITERS)" ∧ Gen.sfistaLoopEarlyExits = [] :=
   Sfista.return_bound_after_one_iteration
+
+/-! ### layer G: every `solve_main(...)` call of `solve` (first run, both forms of a hard restart) -/
+
+/-- **the regulariser survives hard restarts**: each of the three `solve_main` calls in `solve` (table regenerated from
+    solver.py on every run) passes 22 positional arguments that line up with `solve_main`'s own parameter list — only the
+    starting point (`xmin`) and the running counters differ in name — so `h`, `lh`, `argsh`, `prox_uh`, `argsprox` stand at
+    positions 17..21 in every call, and keyword arguments never shadow a positional parameter. -/
+theorem C06_src_restart_keeps_regulariser :
+    (Gen.solveMainCalls.all SolveMainCalls.callOK = true ∧ Gen.solveMainCalls.length = 3) ∧
+    ((Gen.solveMainParams.drop 17).take 5 = ["h", "lh", "argsh", "prox_uh", "argsprox"] ∧
+     ∀ c ∈ Gen.solveMainCalls, (c.1.drop 17).take 5 = ["h", "lh", "argsh", "prox_uh", "argsprox"]) :=
+  ⟨SolveMainCalls.all_calls_ok, SolveMainCalls.regulariser_positions⟩
 
 end C06
 end Dfols
